@@ -669,17 +669,211 @@ Section Preserve.
           eapply cinv_deliver_pre; eauto.
     - (* force closed *)
       destruct (c_rpc x); [|exact G]. cbn [fst]. eapply ginv_put; eauto.
-      + intros T. unfold has_sub_on. cbn [c_sub c_ts]. reflexivity.
+      + intros T. unfold has_sub_on. cbn [c_sub c_ts]. rewrite Es. reflexivity.
       + intros r Hr Hall (Hi & Hep & Hz & Hs & Hk & Hsub). unfold cinv, knows.
-        cbn [c_idx c_epoch c_view c_h c_sub c_ts]. rewrite Es, Est.
+        cbn [c_idx c_epoch c_view c_h c_sub c_ts]. rewrite Est.
         split; [lia|]. split; [exact Hep|]. split; [intros _ k; reflexivity|]. split; [reflexivity|].
         split; [left; reflexivity|exact I].
     - (* closed after an ACL change *)
       destruct (c_rpc x); [|exact G]. cbn [fst]. eapply ginv_put; eauto.
-      + intros T. unfold has_sub_on. cbn [c_sub c_ts]. reflexivity.
+      + intros T. unfold has_sub_on. cbn [c_sub c_ts]. rewrite Es. reflexivity.
       + intros r Hr Hall (Hi & Hep & Hz & Hs & Hk & Hsub). unfold cinv, knows.
-        cbn [c_idx c_epoch c_view c_h c_sub c_ts]. rewrite Es, Est.
+        cbn [c_idx c_epoch c_view c_h c_sub c_ts]. rewrite Est.
         split; [lia|]. split; [exact Hep|]. split; [intros _ k; reflexivity|]. split; [reflexivity|].
         split; [left; reflexivity|exact I].
+  Qed.
+
+  (* ---------------------------------------------------------------- subscribe *)
+
+  Lemma put_put_client c x y l : put_client c y (put_client c x l) = put_client c y l.
+  Proof.
+    induction l as [|[c' z] r IH]; cbn [put_client].
+    - rewrite N.eqb_refl. reflexivity.
+    - destruct (N.eqb c c') eqn:E; cbn [put_client]; rewrite ?N.eqb_refl, ?E; [reflexivity|]. rewrite IH. reflexivity.
+  Qed.
+
+  Lemma last_item_spec items :
+    match last_item items with
+    | Some it => exists l, items = l ++ [it]
+    | None => items = []
+    end.
+  Proof.
+    unfold last_item. induction items as [|a l _] using rev_ind; [reflexivity|].
+    rewrite map_app. cbn [map]. rewrite last_last. exists l. reflexivity.
+  Qed.
+
+  Lemma splice_len items s :
+    (forall it, In it items -> item_idx it <= s) -> splice_off items s = List.length items.
+  Proof.
+    intros H. unfold splice_off. pose proof (last_item_spec items) as Hl.
+    destruct (last_item items) as [[j evs| |]|]; try reflexivity.
+    destruct Hl as (l & ->). specialize (H (IEv j evs)). rewrite in_app_iff in H.
+    specialize (H (or_intror (or_introl eq_refl))). cbn [item_idx] in H.
+    destruct (N.ltb s j) eqn:E; [apply N.ltb_lt in E; lia|reflexivity].
+  Qed.
+
+  Lemma head_index_spec items i :
+    head_has_index items i = true -> exists l evs, items = l ++ [IEv i evs].
+  Proof.
+    unfold head_has_index. pose proof (last_item_spec items) as Hl.
+    destruct (last_item items) as [[j evs| |]|]; try discriminate.
+    destruct Hl as (l & ->). intros E. apply N.eqb_eq in E. subst j. eauto.
+  Qed.
+
+  Lemma snap_events_spec T m idx :
+    ievs (snap_events T m idx) = map row_ev (rows_of T m) /\ Forall is_iev (snap_events T m idx).
+  Proof.
+    unfold snap_events. destruct (per_row (fst T)).
+    - induction (rows_of T m) as [|kv l IH]; cbn [map ievs flat_map]; [split; [reflexivity|constructor]|].
+      destruct IH as [IH1 IH2]. split.
+      + fold (ievs (map (fun kv0 => IEv idx [Ev (fst kv0) (Some (snd kv0))]) l)). rewrite IH1. reflexivity.
+      + constructor; [exact I|exact IH2].
+    - destruct (rows_of T m) as [|kv l]; [split; [reflexivity|constructor]|].
+      cbn [ievs flat_map]. rewrite app_nil_r. split; [reflexivity|]. constructor; [exact I|constructor].
+  Qed.
+
+  Lemma lastidx_app_nonempty a b d : b <> [] -> lastidx (a ++ b) d = lastidx b 0.
+  Proof.
+    intros Hne. destruct (exists_last Hne) as (b' & x & ->). rewrite app_assoc, !lastidx_app_single. reflexivity.
+  Qed.
+
+  (* an idle client that knows nothing can be added *)
+  Lemma ginv_add_idle st c T tok rpc :
+    ginv gf st -> find_client c (st_clients st) = None ->
+    ginv gf (with_clients st (put_client c (Client T tok rpc [] 0 (HSnap []) None (st_epoch st)) (st_clients st))).
+  Proof.
+    intros [Gnd Gst Glok Ginc Ghi Gh Gr Gc Gn] Ec.
+    destruct Gh as (pub & r & Hlog & Hr & Hall & Hbuf & Hcl).
+    constructor; cbn [with_clients st_store st_log st_base st_hi st_queue st_bufs st_clients st_cache st_epoch]; auto.
+    - exists pub, r. split; [exact Hlog|]. split; [exact Hr|]. split; [exact Hall|]. split; [exact Hbuf|].
+      intros c' y Hf. change (hist_of _) with (hist_of st). destruct (N.eq_dec c' c) as [->|Hne].
+      + rewrite find_put_client_same in Hf. injection Hf as <-. unfold cinv, knows.
+        cbn [c_idx c_epoch c_view c_h c_sub c_ts hist_of h_hi h_epoch].
+        split; [lia|]. split; [lia|]. split; [intros _ k; reflexivity|]. split; [reflexivity|].
+        split; [left; reflexivity|exact I].
+      + rewrite find_put_client_other in Hf by exact Hne. exact (Hcl c' y Hf).
+    - intros T'. pose proof (count_put_client T' c (Client T tok rpc [] 0 (HSnap []) None (st_epoch st)) _ Gn) as H.
+      rewrite Ec in H. change (has_sub_on T' (Client T tok rpc [] 0 (HSnap []) None (st_epoch st))) with false in H.
+      cbn [b2n] in H.
+      assert (count_subs T' (put_client c (Client T tok rpc [] 0 (HSnap []) None (st_epoch st)) (st_clients st))
+              = count_subs T' (st_clients st)) as -> by lia.
+      apply Gr.
+    - apply nodup_put_client, Gn.
+  Qed.
+
+  (* the request's view of the world, as [step_ok] / [restore_ok] / [gapfree_ok] state it *)
+  Definition sub_env_ok (st : state) (T : ts) (idx qidx : N) : Prop :=
+    (match snd T, wild_ok (fst T) with
+     | None, false => True
+     | _, _ => Forall (fun b => touches T b = true -> b_idx b <= qidx) (st_log st) /\ qidx <= st_hi st
+     end) /\
+    (forall b, find_buf T (st_bufs st) = Some b -> tb_old b = false) /\
+    (gf = true -> sub_path st T idx = PBuild -> st_queue st = []).
+
+  Lemma touches_proj T b : touches T b = false -> proj T [b] = [].
+  Proof.
+    unfold touches. cbn [proj flat_map]. destruct (evs_for T (b_evs b)); [reflexivity|discriminate].
+  Qed.
+
+  Lemma proj_le T log q :
+    Forall (fun b => touches T b = true -> b_idx b <= q) log ->
+    Forall (fun it => item_idx it <= q) (proj T log).
+  Proof.
+    induction 1 as [|b l Hb _ IH]; cbn [proj flat_map]; [constructor|]. fold (proj T l).
+    apply Forall_app. split; [|exact IH].
+    unfold touches in Hb. destruct (evs_for T (b_evs b)); [constructor|].
+    constructor; [cbn [item_idx]; apply Hb; reflexivity|constructor].
+  Qed.
+
+  Lemma sub_path_not_err st T idx :
+    sub_path st T idx <> PErr ->
+    sub_path st T idx =
+      (if negb (N.eqb idx 0) && head_has_index (buf_items T (st_bufs st)) idx then PResume
+       else match find_snap T (st_cache st) with Some _ => PCache | None => PBuild end) /\
+    (snd T = None -> wild_ok (fst T) = true).
+  Proof.
+    unfold sub_path. destruct (snd T); [intros _; split; [reflexivity|discriminate]|].
+    destruct (wild_ok (fst T)); [intros _; split; reflexivity|congruence].
+  Qed.
+
+  (* bufferForSubscription + refs++ for client c, whose new state x1 holds a subscription *)
+  Definition attach_buf (st : state) (T : ts) : tbuf :=
+    match find_buf T (st_bufs st) with
+    | Some b => TBuf T (S (tb_refs b)) (tb_items b) (tb_old b)
+    | None => TBuf T 1 [] false
+    end.
+
+  Lemma attach_items st T : tb_items (attach_buf st T) = buf_items T (st_bufs st).
+  Proof. unfold attach_buf, buf_items. destruct (find_buf T (st_bufs st)); reflexivity. Qed.
+
+  Lemma ginv_attach st c x0 x1 sb1 cache' :
+    ginv gf st -> find_client c (st_clients st) = Some x0 -> c_sub x0 = None ->
+    c_ts x1 = c_ts x0 -> c_sub x1 = Some sb1 ->
+    (forall b, find_buf (c_ts x0) (st_bufs st) = Some b -> tb_old b = false) ->
+    (forall pub r,
+        st_log st = pub ++ st_queue st -> 1 <= r <= st_hi st ->
+        Forall (fun b => r < b_idx b <= st_hi st) (st_log st) ->
+        (exists X, proj (c_ts x0) pub = X ++ tb_items (attach_buf st (c_ts x0))) ->
+        cinv gf (hist_of st) (find_buf (c_ts x0) (st_bufs st)) r x0 ->
+        cinv gf (hist_of st) (Some (attach_buf st (c_ts x0))) r x1 /\
+        (forall T' sn, find_snap T' cache' = Some sn ->
+                       find_snap T' (st_cache st) = Some sn \/
+                       (T' = c_ts x0 /\ cacheinv gf (hist_of st) T' (Some (attach_buf st (c_ts x0))) sn))) ->
+    ginv gf (State (st_store st) (st_queue st) (put_buf (attach_buf st (c_ts x0)) (st_bufs st)) cache'
+                   (put_client c x1 (st_clients st)) (st_cache_on st) (st_hi st) (st_log st) (st_base st)
+                   (st_epoch st)).
+  Proof.
+    intros G Ec Es0 Et Es1 Hold Hupd. pose proof G as [Gnd Gst Glok Ginc Ghi Gh Gr Gc Gn].
+    destruct Gh as (pub & r & Hlog & Hr & Hall & Hbuf & Hcl).
+    set (T := c_ts x0) in *. set (tb := attach_buf st T) in *.
+    assert (Hts : tb_ts tb = T) by (unfold tb, attach_buf; destruct (find_buf T (st_bufs st)); reflexivity).
+    assert (Htold : tb_old tb = false).
+    { unfold tb, attach_buf. destruct (find_buf T (st_bufs st)) as [b|] eqn:E; [apply Hold; reflexivity|reflexivity]. }
+    assert (Hsame : forall T', find_buf T' (put_buf tb (st_bufs st)) =
+                               if ts_eqb T' T then Some tb else find_buf T' (st_bufs st)).
+    { intros T'. destruct (ts_eqb T' T) eqn:E.
+      - apply ts_eqb_eq in E; subst T'. rewrite <- Hts. apply find_put_buf_same.
+      - apply ts_eqb_neq in E. apply find_put_buf_other. rewrite Hts. exact E. }
+    assert (HX : exists X, proj T pub = X ++ tb_items tb).
+    { unfold tb, attach_buf. destruct (find_buf T (st_bufs st)) as [b|] eqn:E; cbn [tb_items].
+      - apply (Hbuf T b E). apply Hold; reflexivity.
+      - exists (proj T pub). rewrite app_nil_r. reflexivity. }
+    destruct (Hupd pub r Hlog Hr Hall HX (Hcl c x0 Ec)) as [Hc1 Hcache].
+    assert (Hlive : forall off h, buf_live (find_buf T (st_bufs st)) off ->
+                                  buf_live (Some tb) off /\
+                                  tail h T (Some tb) off = tail h T (find_buf T (st_bufs st)) off).
+    { intros off h Hl. destruct Hl as (b & Eb & Hob & Hoff). eapply live_same; [exact Eb|reflexivity| | |].
+      - unfold tb, attach_buf. rewrite Eb. reflexivity.
+      - unfold tb, attach_buf. rewrite Eb. reflexivity.
+      - exists b. auto. }
+    assert (Hx0 : forall T', has_sub_on T' x0 = false) by (intros; unfold has_sub_on; rewrite Es0; reflexivity).
+    assert (Hx1 : forall T', has_sub_on T' x1 = ts_eqb T' T) by (intros; unfold has_sub_on; rewrite Es1, Et; reflexivity).
+    constructor; cbn [st_store st_log st_base st_hi st_queue st_bufs st_clients st_cache st_epoch]; auto.
+    - exists pub, r. split; [exact Hlog|]. split; [exact Hr|]. split; [exact Hall|]. split.
+      + intros T' tb0 Hf Hold0. rewrite Hsame in Hf. destruct (ts_eqb T' T) eqn:E.
+        * apply ts_eqb_eq in E; subst T'. injection Hf as <-. exact HX.
+        * eapply Hbuf; eauto.
+      + intros c' y Hf. change (hist_of _) with (hist_of st). destruct (N.eq_dec c' c) as [->|Hne].
+        * rewrite find_put_client_same in Hf. injection Hf as <-. rewrite Et, Hsame. fold T.
+          rewrite ts_eqb_refl. exact Hc1.
+        * rewrite find_put_client_other in Hf by exact Hne. rewrite Hsame.
+          destruct (ts_eqb (c_ts y) T) eqn:E; [|exact (Hcl c' y Hf)].
+          apply ts_eqb_eq in E. pose proof (Hcl c' y Hf) as Hy. rewrite E in Hy.
+          eapply (cinv_ext (hist_of st)); [reflexivity|reflexivity|reflexivity|reflexivity| |exact Hy].
+          intros sby _ _ Hl. rewrite E. apply Hlive, Hl.
+    - intros T'. rewrite Hsame. pose proof (count_put_client T' c x1 _ Gn) as H.
+      rewrite Ec, Hx0, Hx1 in H. cbn [b2n] in H. specialize (Gr T'). destruct (ts_eqb T' T) eqn:E.
+      + apply ts_eqb_eq in E; subst T'. cbn [b2n] in H. unfold tb, attach_buf.
+        destruct (find_buf T (st_bufs st)); cbn [tb_refs]; lia.
+      + cbn [b2n] in H. assert (count_subs T' (put_client c x1 (st_clients st)) = count_subs T' (st_clients st)) as -> by lia.
+        exact Gr.
+    - intros T' sn Hf. change (hist_of _) with (hist_of st). rewrite Hsame.
+      destruct (Hcache T' sn Hf) as [Hf0|[-> Hc]].
+      + pose proof (Gc T' sn Hf0) as Hc. destruct (ts_eqb T' T) eqn:E; [|exact Hc].
+        apply ts_eqb_eq in E; subst T'.
+        eapply (cacheinv_ext (hist_of st)); [reflexivity|reflexivity|reflexivity| |exact Hc].
+        intros Hl. apply Hlive, Hl.
+      + fold T. rewrite ts_eqb_refl. exact Hc.
+    - apply nodup_put_client, Gn.
   Qed.
 End Preserve.
